@@ -20,8 +20,8 @@ from rules.C20 import value_reads
 PID = 'C05'
 
 META = {
-    'technique': 'field-based taint closure from the core count (configuration function: any dependence; elsewhere: pure functions only) + per-function local taint with the loop-bound idiom + classification of every use site of a geometry value in pipeline code against an enumerated set of harmless idioms',
-    'text': 'Decides that the only things the logical-processor count can influence in the running pipeline are how the work is cut up and how many workers / buffers exist: every read of a core-count-derived geometry value in thread code is a loop bound, segment index arithmetic, a table subscript, an infrastructure argument or a completion-counter comparison. A geometry value that steers a coding decision (the way thread-count dependence actually creeps in) is reported with its site. It does not decide that the wavefront makes the same neighbours available for every grid (C24 covers its structure).',
+    'technique': 'field-based taint closure from the core count (configuration function: any dependence; elsewhere: pure functions only) + per-function local taint with the loop-bound idiom + classification of every use site of a geometry value in pipeline code against an enumerated set of harmless idioms; coverage comparison of zero-fill loops against the read loops of the same per-thread context array (per subscript: declared extent, or the read bound)',
+    'text': 'Decides that the only things the logical-processor count can influence in the running pipeline are how the work is cut up and how many workers / buffers exist: every read of a core-count-derived geometry value in thread code is a loop bound, segment index arithmetic, a table subscript, an infrastructure argument or a completion-counter comparison. A geometry value that steers a coding decision (the way thread-count dependence actually creeps in) is reported with its site. It does not decide that the wavefront makes the same neighbours available for every grid (C24 covers its structure). Also decided: where a kernel zero-fills an array of its per-thread context and reads it later in the same function, the fill is not demonstrably narrower than a read (a narrower fill leaves elements holding what the previous work item of that thread wrote, which makes the result depend on the distribution of work over threads); bounds that cannot be compared are listed, not decided.',
     'note': 'two documented dependences exist today (pic_based_rate_est keyed on a 1x1 segment grid; enable_pic_mgr_dec_order keyed on logical_processors == 1): recorded findings',
     'ref': 'DESIGN.md section 5 C05',
 }
